@@ -32,6 +32,9 @@ pub struct Mon {
     pub undelegated: BTreeMap<u64, (u64, u128)>,
     pub released_snap: BTreeMap<u64, basset::hub::UnbondHistoryResponse>,
     pub last_processed: u64,
+    /// the keeper rate the dispatcher's owner configured: instantiate value, then every committed
+    /// UpdateConfig that names the field
+    pub keeper_rate_model: Option<cosmwasm_std::Decimal>,
     /// validators taken out of the registry by a committed RemoveValidator and not added again
     pub removed_validators: BTreeSet<String>,
     /// the registered validator set according to the deployment and the committed AddValidator /
